@@ -205,6 +205,7 @@ pub const CTL_MENU: &[(&[u32], &[u32])] = &[
     (&[2], &[3]),     // (Read<R2>, Write<R3>)
     (&[4], &[]),      // Option<Read<R4>>
     (&[], &[5]),      // (Option<Write<R5>>,)
+    (&[6], &[]),      // Read<R6, CountSetup>  (a user-written setup handler that counts its calls)
 ];
 
 // ---------------------------------------------------------------------------------------
@@ -357,6 +358,30 @@ pub fn gen_random(rng: &mut Rng, malformed: bool) -> Vec<Reg> {
     let n = match rng.below(10) { 0..=4 => 1 + rng.below(8), 5..=7 => 5 + rng.below(25), 8 => 20 + rng.below(80), _ => 50 + rng.below(250) };
     let mut g = Gen { rng, next_tag: 0 };
     g.level(&p, 0, n)
+}
+
+/// "widestage": 60..90 pairwise compatible systems (one stage with that many groups), then a few systems that conflict
+/// with, or depend on, one of them (also one far to the right)
+pub fn gen_widestage(rng: &mut Rng) -> Vec<Reg> {
+    let n = 60 + rng.below(31) as u32;
+    let mut out = Vec::new();
+    for i in 1..=n {
+        let reads = if rng.chance(1, 3) { vec![500] } else { vec![] };
+        out.push(Reg::Sys { tag: i, name: format!("s{}", i), deps: vec![], reads, writes: vec![1000 + i], time: 1 + rng.below(5) as u8, kind: SysKind::Dynamic });
+    }
+    let k = 1 + rng.below(6) as u32;
+    for x in 1..=k {
+        let j = if rng.chance(1, 2) { n - rng.below(8.min(n as u64)) as u32 } else { 1 + rng.below(n as u64) as u32 };
+        let tag = n + x;
+        let (deps, reads, writes) = match rng.below(4) {
+            0 => (vec![], vec![], vec![1000 + j]),
+            1 => (vec![], vec![1000 + j], vec![]),
+            2 => (vec![format!("s{}", j)], vec![], vec![]),
+            _ => (vec![format!("s{}", j)], vec![500], vec![2000 + x]),
+        };
+        out.push(Reg::Sys { tag, name: format!("s{}", tag), deps, reads, writes, time: 1 + rng.below(5) as u8, kind: SysKind::Dynamic });
+    }
+    out
 }
 
 /// "funnel": many systems conflicting on few resources with skewed hints, so that groups
